@@ -35,6 +35,7 @@ Definition c04u_hits := Eval vm_compute in all_c04u cases.
 Definition c04d_hits := Eval vm_compute in all_c04d cases.
 Definition m3_hits := Eval vm_compute in all_mon3 cases.
 Definition net_hits := Eval vm_compute in all_net cases.
+Definition deliv_hits := Eval vm_compute in all_deliv cases.
 Print rejects.
 Print c02_hits.
 Print c03_hits.
@@ -42,6 +43,7 @@ Print c04u_hits.
 Print c04d_hits.
 Print m3_hits.
 Print net_hits.
+Print deliv_hits.
 """
 
 
@@ -78,7 +80,7 @@ def input_fingerprint():
 def run_batch(R, n_hist, seed, tables, enum=False):
     """One harness invocation + evaluation.  Returns dict: ok(bool: pipeline ran), hs(list of histories), byid, rejects, c02, c03, c04u, c04d, qf_bad,
     leader_bad, broke(list of (name, detail))."""
-    res = {"broke": [], "hs": [], "byid": {}, "rejects": [], "c02": [], "c03": [], "c04u": [], "c04d": [], "m3": [], "net": [],
+    res = {"broke": [], "hs": [], "byid": {}, "rejects": [], "c02": [], "c03": [], "c04u": [], "c04d": [], "m3": [], "net": [], "deliv": [],
            "qf_bad": [], "leader_bad": [], "leader_rows": 0, "cached": False}
     replay = os.environ.get("VERIF_REPLAY")
     if replay:
@@ -195,6 +197,7 @@ def run_batch(R, n_hist, seed, tables, enum=False):
         res["c04d"] += nums(vp.parse_marked(out, "c04d_hits"))
         res["m3"] += nums(vp.parse_marked(out, "m3_hits"))
         res["net"] += nums(vp.parse_marked(out, "net_hits"))
+        res["deliv"] += nums(vp.parse_marked(out, "deliv_hits"))
     if cache_key and not res["broke"]:
         try:
             dump = dict(res)
@@ -213,7 +216,7 @@ def run(R, n_hist):
     """Runs the harness in batches of at most BATCH histories (bounded memory), batch k > 0 with seed
     seed*1000+k; history ids are made global (batch*BATCH + local id).  Full traces are kept only for
     histories some check points at."""
-    total = {"broke": [], "hs": [], "byid": {}, "rejects": [], "c02": [], "c03": [], "c04u": [], "c04d": [], "m3": [], "net": [],
+    total = {"broke": [], "hs": [], "byid": {}, "rejects": [], "c02": [], "c03": [], "c04u": [], "c04d": [], "m3": [], "net": [], "deliv": [],
              "qf_bad": [], "leader_bad": [], "leader_rows": 0}
     k, left = 0, n_hist
     enum_pending = R.thorough and not os.environ.get("VERIF_REPLAY")
@@ -225,7 +228,7 @@ def run(R, n_hist):
         res = run_batch(R, nb, R.seed if k == 0 else R.seed * 1000 + k, k == 0, enum=enum)
         off = k * BATCH
         total["broke"] += res["broke"]
-        for key in ("rejects", "c03", "c04u", "c04d", "m3", "net"):
+        for key in ("rejects", "c03", "c04u", "c04d", "m3", "net", "deliv"):
             total[key] += [[x[0] + off] + list(x[1:]) for x in res[key]]
         total["c02"] += [x + off for x in res["c02"]]
         if k == 0:
@@ -236,7 +239,7 @@ def run(R, n_hist):
                     total[key] = res[key]
             if res.get("skipped"):
                 total["skipped"] = res["skipped"]
-        pointed = {x[0] for key in ("rejects", "c03", "c04u", "c04d", "m3", "net") for x in res[key]} | set(res["c02"])
+        pointed = {x[0] for key in ("rejects", "c03", "c04u", "c04d", "m3", "net", "deliv") for x in res[key]} | set(res["c02"])
         for h in res["hs"]:
             h["nlabels"] = len(h["trace"])
             h["digest"] = vp.digest(h["events"])
@@ -317,7 +320,7 @@ def report_common(R, res, which):
                 json.dumps({"label": lab[:1500], "replay": replay_obj(h, gi)})[:6000])
     rej_ids = {x[0] for x in res["rejects"]}
     for cid, gi in res.get("net", []):
-        if cid in rej_ids or cid in hit:
+        if cid in rej_ids or cid in hit or os.environ.get("VERIF_REPLAY"):
             continue
         h = res["byid"][cid]
         R.broke("correspondence:Qbft/Net.v refuses global step %d of honest cluster history %d (%s): a delivered part was never broadcast" % (gi, cid, h["kind"]),
